@@ -94,6 +94,8 @@ def bitvec(t, env, width):
             hi = None if (isinstance(a[2], Const) and a[2].v is None) else ieval(a[2], env)
             # Migen slicing: python semantics on the bit list, bounds clipped
             return base[slice(lo, hi)]
+        if o == "trunc":      # a wire narrower than its value (ruleutil.View alias inlining)
+            return bitvec(a[0], env, width)[:ieval(a[1], env)]
         if o == "index":
             base = bitvec(a[0], env, width)
             return [base[ieval(a[1], env)]]
